@@ -121,6 +121,13 @@ def _sim_avm(fv):
 
 def _check_spec(j):
     k = j["k"]
+    if k == "hist":
+        _check_spec(j["base"])
+        for op in j["ops"]:
+            for x in op[1:]:
+                if isinstance(x, dict):
+                    _check_spec(x)
+        return
     if k == "conj":
         for t in j["t"]:
             _check_spec(t)
@@ -181,6 +188,126 @@ def gen_val(rng, depth, docp=0.12, feature=False):
         return {"k": "conj", "t": [t]}
     n = rng.choice([2, 2, 2, 3])
     return {"k": "conj", "t": [gen_term(rng, depth, docp) for _ in range(n)]}
+
+
+def recase(rng, path):
+    out = []
+    for c in path:
+        t = uncps(c)
+        r = rng.random()
+        out.append(cps(t.lower() if r < 0.3 else t.upper() if r < 0.6 else t))
+    return out
+
+
+def gen_hist_avm(rng, depth=2):
+    """an AVM on which features are defined, deleted, re-defined and overwritten"""
+    while True:
+        base = gen_avm(rng, depth, 0.05)
+        if not spec_exotic(base):
+            break
+    paths = [p for p, _ in base["f"]]
+    deleted = []
+    ops = []
+    for _ in range(rng.choice([1, 2, 2, 3, 3, 4, 6])):
+        c = rng.random()
+        if c < 0.3 and paths:
+            p = rng.choice(paths)
+            q = p[:rng.randrange(1, len(p) + 1)]
+            ops.append(["del", recase(rng, q)])
+            deleted.append(q)
+            paths = [x for x in paths if [uncps(a).upper() for a in x[:len(q)]] != [uncps(a).upper() for a in q]]
+        elif c < 0.6 and deleted:
+            q = rng.choice(deleted)
+            ops.append(["set", recase(rng, q), gen_leaf(rng, 0.05)])
+            paths.append(q)
+        elif c < 0.75 and paths:
+            ops.append(["set", recase(rng, rng.choice(paths)), gen_leaf(rng, 0.05)])
+        elif c < 0.95:
+            p = gen_path(rng)
+            v = gen_val(rng, 1, 0.05, feature=True)
+            if not spec_exotic(v):
+                ops.append(["set", p, v])
+                paths.append(p)
+        else:
+            ops.append(["normalize"])
+    return {"k": "hist", "base": base, "ops": ops}
+
+
+def gen_hist_cons(rng):
+    base = {"k": "cons", "d": maybe_doc(rng, 0.05), "v": [gen_leaf(rng, 0.0) for _ in range(rng.choice([0, 0, 1, 2]))],
+            "e": "open"}
+    ops = [["append", gen_val(rng, 1, 0.05)] for _ in range(rng.choice([0, 1, 2, 3, 5]))]
+    r = rng.random()
+    if r < 0.3:
+        ops.append(["terminate", "closed"])
+    elif r < 0.5:
+        ops.append(["terminate", "open"])
+    elif r < 0.8:
+        ops.append(["terminate", rng.choice([gen_leaf(rng, 0.0), {"k": "str", "d": None, "s": []},
+                                             {"k": "cons", "d": None, "v": [], "e": "closed"},
+                                             {"k": "diff", "d": None, "v": []}])])
+    if rng.random() < 0.15:
+        ops.append(["append", gen_leaf(rng, 0.0)])
+    if rng.random() < 0.1:
+        ops.append(["normalize"])
+    return {"k": "hist", "base": base, "ops": ops}
+
+
+def gen_hist_conj(rng):
+    base = {"k": "conj", "t": [gen_leaf(rng, 0.05)] + ([gen_avm(rng, 1, 0.0)] if rng.random() < 0.6 else [])}
+    ops = []
+    for _ in range(rng.choice([1, 2, 3])):
+        c = rng.random()
+        if c < 0.35:
+            ops.append(["add", gen_term(rng, 1, 0.05)])
+        elif c < 0.55:
+            ops.append(["and", gen_leaf(rng, 0.05)])
+        elif c < 0.7:
+            ops.append(["add", {"k": "conj", "t": [gen_leaf(rng, 0.0), gen_leaf(rng, 0.0)]}])
+        elif c < 0.85:
+            ops.append(["normalize"])
+        else:
+            ops.append(["add", gen_avm(rng, 1, 0.0)])
+    for op in ops:
+        for x in op[1:]:
+            if isinstance(x, dict) and spec_exotic(x):
+                return gen_hist_conj(rng)
+    if spec_exotic(base):
+        return gen_hist_conj(rng)
+    return {"k": "hist", "base": base, "ops": ops}
+
+
+def gen_hist_item(rng):
+    """a definition whose body (or a value in it) came about through mutator calls"""
+    r = rng.random()
+    sup = {"k": "id", "d": None, "s": cps(gen_ident(rng))}
+    if r < 0.45:
+        ts = [sup, gen_hist_avm(rng)]
+    elif r < 0.6:
+        ts = [sup, {"k": "avm", "d": None, "f": [[[cps("L")], gen_hist_cons(rng)], [[cps("M")], gen_leaf(rng, 0.0)]]}]
+    elif r < 0.75:
+        ts = [sup, {"k": "avm", "d": None, "f": [[[cps("C")], gen_hist_conj(rng)]]}]
+    else:
+        ts = [sup, gen_avm(rng, 2, 0.05), gen_leaf(rng, 0.0)]
+        if spec_exotic(ts[1]):
+            ts[1] = {"k": "avm", "d": None, "f": [[[cps("A")], gen_leaf(rng, 0.0)]]}
+    it = {"k": rng.choice(["typedef", "typedef", "addendum"]), "id": cps(gen_ident(rng)), "t": ts,
+          "d": maybe_doc(rng, 0.1)}
+    if r >= 0.75 or rng.random() < 0.2:
+        ops = []
+        paths = [p for p, _ in ts[1]["f"]] if ts[1]["k"] == "avm" else []
+        for _ in range(rng.choice([1, 2, 3])):
+            c = rng.random()
+            if c < 0.35 and paths:
+                p = rng.choice(paths)
+                ops.append(["del", recase(rng, p[:rng.randrange(1, len(p) + 1)])])
+                ops.append(["set", recase(rng, p[:1]), gen_leaf(rng, 0.0)])
+            elif c < 0.7:
+                ops.append(["set", gen_path(rng), gen_leaf(rng, 0.0)])
+            else:
+                ops.append(["normalize"])
+        it["ops"] = ops
+    return it
 
 
 def gen_def(rng, depth=3):
@@ -352,6 +479,8 @@ def long_entities(mix, i):
 
 def b_term(j):
     k = j["k"]
+    if k == "hist":
+        return b_val(j)
     d = None if j.get("d") is None else uncps(j["d"])
     if k == "id":
         return tdl.TypeIdentifier(uncps(j["s"]), docstring=d)
@@ -375,19 +504,90 @@ def b_term(j):
 def b_val(j):
     if j["k"] == "conj":
         return tdl.Conjunction([b_term(t) for t in j["t"]])
+    if j["k"] == "hist":
+        obj = b_val(j["base"])
+        for op in j["ops"]:
+            obj = apply_op(obj, op)
+        return obj
     return b_term(j)
+
+
+def _plain_path(obj, path):
+    """raise _Exotic unless the assignment/deletion stays inside plain AVMs (or ends in a constructor error)"""
+    cur = obj
+    if isinstance(cur, tdl.Conjunction):
+        avms = [t for t in cur.terms if isinstance(t, tdl.AVM)]
+        if not avms:
+            return
+        cur = avms[-1]
+    if type(cur) is not tdl.AVM:
+        raise _Exotic()
+    for comp in path[:-1]:
+        nxt = cur._avm.get(uncps(comp).upper())
+        if nxt is None:
+            return
+        if isinstance(nxt, (tdl.TypeTerm, tdl.Coreference)):
+            return
+        if type(nxt) is not tdl.AVM:
+            raise _Exotic()
+        cur = nxt
+
+
+def apply_op(obj, op):
+    """one public mutator call"""
+    name = op[0]
+    if name == "set":
+        _plain_path(obj, op[1])
+        obj[".".join(uncps(c) for c in op[1])] = b_val(op[2])
+    elif name == "del":
+        if isinstance(obj, tdl.Conjunction) and any(isinstance(t, (tdl.ConsList, tdl.DiffList)) for t in obj.terms):
+            raise _Exotic()
+        _plain_path(obj, op[1])
+        del obj[".".join(uncps(c) for c in op[1])]
+    elif name == "normalize":
+        obj.normalize()
+    elif name == "append":
+        obj.append(b_val(op[1]))
+    elif name == "terminate":
+        e = op[1]
+        obj.terminate(tdl.EMPTY_LIST_TYPE if e == "closed" else tdl.LIST_TYPE if e == "open" else b_val(e))
+    elif name == "add":
+        obj.add(b_val(op[1]))
+    elif name == "and":
+        obj = obj & b_val(op[1])
+    else:
+        raise ValueError(name)
+    return obj
 
 
 def b_item(j):
     k = j["k"]
     d = None if j.get("d") is None else uncps(j["d"])
-    if k == "typedef":
-        return tdl.TypeDefinition(uncps(j["id"]), tdl.Conjunction([b_term(t) for t in j["t"]]), docstring=d)
-    if k == "addendum":
-        return tdl.TypeAddendum(uncps(j["id"]), tdl.Conjunction([b_term(t) for t in j["t"]]), docstring=d)
-    if k == "lexrule":
-        return tdl.LexicalRuleDefinition(uncps(j["id"]), uncps(j["a"]), [(uncps(m), uncps(r)) for m, r in j["p"]],
-                                         tdl.Conjunction([b_term(t) for t in j["t"]]), docstring=d)
+    if k in ("typedef", "addendum", "lexrule"):
+        conj = tdl.Conjunction([b_term(t) for t in j["t"]])
+        if k == "typedef":
+            td = tdl.TypeDefinition(uncps(j["id"]), conj, docstring=d)
+        elif k == "addendum":
+            td = tdl.TypeAddendum(uncps(j["id"]), conj, docstring=d)
+        else:
+            td = tdl.LexicalRuleDefinition(uncps(j["id"]), uncps(j["a"]), [(uncps(m), uncps(r)) for m, r in j["p"]],
+                                           conj, docstring=d)
+        for op in j.get("ops", []):
+            if op[0] == "set":
+                if any(isinstance(t, (tdl.ConsList, tdl.DiffList)) for t in td.conjunction.terms):
+                    raise _Exotic()
+                _plain_path(td.conjunction, op[1])
+                td[".".join(uncps(c) for c in op[1])] = b_val(op[2])
+            elif op[0] == "del":
+                if any(isinstance(t, (tdl.ConsList, tdl.DiffList)) for t in td.conjunction.terms):
+                    raise _Exotic()
+                _plain_path(td.conjunction, op[1])
+                del td[".".join(uncps(c) for c in op[1])]
+            elif op[0] == "normalize":
+                td.conjunction.normalize()
+            else:
+                raise ValueError(op[0])
+        return td
     if k == "letterset":
         return tdl.LetterSet(uncps(j["var"]), uncps(j["chars"]))
     if k == "wildcard":
@@ -509,6 +709,47 @@ def d_obj(o, ndoc=ndoc):
     if isinstance(o, tdl.BlockComment):
         return {"k": "bcomment", "s": cps(str(o))}
     raise TypeError(type(o))
+
+
+def s_doc(d):
+    return None if d is None else cps(d)
+
+
+def s_term(t):
+    """constructor spec of a real term: what it is, not how it came about"""
+    doc = s_doc(t.docstring)
+    if isinstance(t, tdl.ConsList):
+        vals = t.values()
+        if not t.terminated:
+            e = "open"
+        elif t._avm is not None and t[t._last_path] is not None:
+            e = s_val(vals[-1])
+            vals = vals[:-1]
+        else:
+            e = "closed"
+        return {"k": "cons", "d": doc, "v": [s_val(v) for v in vals], "e": e}
+    if isinstance(t, tdl.DiffList):
+        return {"k": "diff", "d": doc, "v": [s_val(v) for v in t.values()]}
+    if isinstance(t, tdl.AVM):
+        return {"k": "avm", "d": doc, "f": [[[cps(k)], s_val(t._avm[k])] for k in t._avm]}
+    kind = {tdl.TypeIdentifier: "id", tdl.String: "str", tdl.Regex: "re"}.get(type(t))
+    if kind:
+        return {"k": kind, "d": doc, "s": cps(str(t))}
+    return {"k": "co", "d": doc, "s": cps(t.identifier)}
+
+
+def s_val(v):
+    if isinstance(v, tdl.Conjunction):
+        return {"k": "conj", "t": [s_term(t) for t in v.terms]}
+    return s_term(v)
+
+
+def rebuilt_in_one_go(o):
+    """a fresh TypeDefinition with the same structure, made by one constructor call per node"""
+    ts = tdl.Conjunction([b_term(s_term(t)) for t in o.conjunction.terms])
+    if isinstance(o, tdl.LexicalRuleDefinition):
+        return tdl.LexicalRuleDefinition(o.identifier, o.affix_type, list(o.patterns), ts, docstring=o.docstring)
+    return type(o)(o.identifier, ts, docstring=o.docstring)
 
 
 def d_env_begin(env):
@@ -732,6 +973,11 @@ def unwrap_unit_conj(j, feature=False, end=False):
     a list-type name at the end of a dotted list"""
     j = dict(j)
     k = j["k"]
+    if k == "hist":
+        j["base"] = unwrap_unit_conj(j["base"], feature, end)
+        j["ops"] = [[op[0]] + [unwrap_unit_conj(x, op[0] == "set") if isinstance(x, dict) else x for x in op[1:]]
+                    for op in j["ops"]]
+        return j
     if k == "conj":
         if feature and len(j["t"]) == 1 and j["t"][0]["k"] == "avm" and j["t"][0].get("d") is None:
             return unwrap_unit_conj(j["t"][0], True)
@@ -814,7 +1060,11 @@ class C15(Check):
             "inline and broken layouts occur, diff lists, coreferences, strings/regexes over escape-rich alphabets, "
             "docstrings with quotes, quote runs, backslashes, blank lines and indentation; docstring/escape cases "
             "exhaustive over {\", \\, a, LF} up to length 5; mutated token streams for the parser's error branches; "
-            "path set/get cases with random letter case; in every run 288 long files (>1024, >2048, >4096 lexer tokens; 41-484 "
+            "path set/get cases with random letter case; constructor histories (AVMs, ConsLists, Conjunctions and definition "
+            "bodies built by __setitem__/__delitem__ with plain and dotted paths in varying letter case, re-setting deleted or "
+            "existing features, append/terminate, add/&, normalize) compared with the same structure built in one go; "
+            "deterministic blocks for define-delete-define, falsy dotted list ends and backslash runs before quote runs in "
+            "docstrings; in every run 288 long files (>1024, >2048, >4096 lexer tokens; 41-484 "
             "entities; five entity mixes: & chains, dotted paths, lists, docstrings/addenda/lexical rules, environments) "
             "preceded by k=0..40 one-token line comments so that every later token is swept against the 1024-token "
             "look-ahead buffer boundaries (k step 1 for >1024, step 4 for the larger ones in the quick tier). Non-trivial = has at least one term or character; distinct by "
@@ -974,6 +1224,40 @@ class C15(Check):
             yield {"kind": "items", "items": [{"k": "typedef", "id": cps("t"), "d": None,
                                                "t": [a, {"k": "avm", "d": None,
                                                          "f": [[[cps("L")], {"k": "diff", "d": None, "v": [a] * nn}]]}]}]}
+        # constructor histories: define / delete / define again (plain and dotted paths, any letter case)
+        x, y, z = _I("x"), _I("y"), _I("z")
+
+        def hist_case(base_fv, ops, item_ops=None):
+            it = _td("t", [_I("s"), {"k": "hist", "base": _avm(base_fv), "ops": ops}])
+            if item_ops:
+                it["ops"] = item_ops
+            return {"kind": "items", "hist": True, "items": [it]}
+        P = lambda s_: [cps(c) for c in s_.split(".")]
+        yield hist_case([("A", x), ("B", y)], [["del", P("A")], ["set", P("A"), z]])
+        yield hist_case([("A", x), ("B", y)], [["del", P("a")], ["set", P("A"), z], ["del", P("A")], ["set", P("a"), x]])
+        yield hist_case([("A", x), ("B", y)], [["set", P("a"), z], ["set", P("B"), z]])
+        yield hist_case([("A.B", x), ("A.C", y), ("D", z)], [["del", P("A.B")], ["set", P("a.b"), z]])
+        yield hist_case([("A.B", x), ("A.C", y), ("D", z)], [["del", P("A")], ["set", P("A.B"), z], ["set", P("A.C"), x]])
+        yield hist_case([("A.B.C", x)], [["del", P("A.B.C")], ["set", P("A.B.C"), y], ["set", P("A.B.D"), z]])
+        yield hist_case([("A", x), ("B", y)], [], [["del", P("A")], ["set", P("A"), z]])
+        yield hist_case([("A", x), ("B", y), ("C", z)], [["del", P("B")], ["del", P("A")], ["set", P("B"), x],
+                                                       ["set", P("A"), y], ["normalize"]])
+        yield hist_case([("A", _conj(_avm([("B", x)])))], [["normalize"]])
+        yield {"kind": "items", "hist": True, "items": [_td("t", [_I("s"), _avm([
+            ("L", {"k": "hist", "base": _cons([], "open"), "ops": [["append", x], ["append", y], ["terminate", "closed"]]}),
+            ("M", {"k": "hist", "base": _cons([x], "open"), "ops": [["append", y], ["terminate", _C("r")]]}),
+            ("N", {"k": "hist", "base": _conj(x, _avm([("F", y)])), "ops": [["add", _C("c")], ["and", z], ["normalize"]]})])])]}
+        # dotted lists whose end is "empty" in Python's sense
+        for end in (_S(""), _cons([], "closed"), _diff([]), _cons([], "open"), _avm([]), {"k": "re", "d": None, "s": []}):
+            for nn in (1, 2, 4):
+                yield {"kind": "items", "items": [_td("t", [_I("s"), _avm([("L", _cons([x] * nn, end))])])]}
+        # backslash runs directly before quote runs in docstrings (even and odd lengths)
+        for nb in range(0, 5):
+            for nq in range(1, 6):
+                d = "a" + "\\" * nb + '"' * nq
+                for tail in ("", "b", "\n"):
+                    yield {"kind": "doc", "doc": cps(d + tail), "indent": 2, "rest": cps(".")}
+                yield {"kind": "items", "items": [_td("t", [_I("s", d)], d + " z")]}
         # long files: every later token swept against the 1024-token buffer boundaries of LookaheadIterator
         for target in ((1024, 2048, 4096) if tier == "quick" else (1024, 2048, 4096, 8192)):
             mixes = LONG_MIXES if target <= 2048 else LONG_MIXES[: 2 + (target == 4096)]
@@ -1008,8 +1292,10 @@ class C15(Check):
         for _ in range(n):
             r = rng.random()
             kind = rng.choice(kinds) if kinds else None
-            if kind == "items" or (kind is None and r < 0.6):
+            if kind == "items" or (kind is None and r < 0.5):
                 yield {"kind": "items", "items": gen_file(rng, depth)}
+            elif kind is None and r < 0.6:
+                yield {"kind": "items", "hist": True, "items": [gen_hist_item(rng)]}
             elif kind == "toks" or (kind is None and r < 0.72):
                 c = self.gen_toks_case(rng, depth)
                 if c is not None:
@@ -1084,6 +1370,8 @@ class C15(Check):
             out = {}
             try:
                 objs = b_tree(case["items"])
+            except _Exotic:
+                return {"construct": "unmodelled"}, None
             except EXC as e:
                 return {"construct": exc_name(e)}, None
             out["orig"] = d_flat(objs)
@@ -1240,7 +1528,7 @@ class C15(Check):
         if k == "long":
             aux = self._aux[1] if getattr(self, "_aux", (None, None))[0] == id(case) else None
             items = self.long_items(case)
-            c2 = {"kind": "items", "items": items}
+            c2 = {"kind": "items", "items": items, "onego": False}
             if aux is None:
                 _, aux = self.run_items(c2)
             self._aux = (id(c2), aux)
@@ -1270,6 +1558,20 @@ class C15(Check):
                 fail("format raises on a TDL entity", json.dumps(res.get("fmt")))
                 return fails
             text1 = aux["text1"]
+            # however the object came about (constructor or a history of mutator calls), it is written like the
+            # same structure built in one go
+            for o in (self.flat_objs(objs) if case.get("onego", True) else []):
+                if isinstance(o, tdl.TypeDefinition):
+                    try:
+                        with warnings.catch_warnings():
+                            warnings.simplefilter("ignore")
+                            t_hist, t_once = tdl.format(o), tdl.format(rebuilt_in_one_go(o))
+                        if t_hist != t_once:
+                            fail("an object built by a history of calls is written differently from the same "
+                                 "structure built in one go", repr((t_hist, t_once))[:700])
+                    except EXC as e:
+                        fail("an object built by a history of calls is written differently from the same "
+                             "structure built in one go", "rebuilding raises " + exc_name(e))
             if "events" not in aux:
                 fail("formatted text does not parse", repr(text1)[:600])
                 return fails
@@ -1469,6 +1771,10 @@ class C15(Check):
             if aux and "events" in aux:
                 inc("long-entities", len(aux["events"]))
             return
+        if k == "items" and case.get("hist"):
+            inc("history-cases")
+            for op in re.findall(r'\["(set|del|normalize|append|terminate|add|and)"', json.dumps(case["items"])):
+                inc("history-op:" + op)
         if k == "items":
             inc("items:%d" % min(len(case["items"]), 8))
             for it in case["items"]:
